@@ -103,6 +103,10 @@ def gen_number(rng):
     if r < 0.55:
         return "-" + str(rng.choice([0, 1, 5, 2 ** 31, 2 ** 63 - 1, 2 ** 63, rng.randrange(1, 10 ** rng.randrange(1, 19))]))
     if r < 0.6:
+        if rng.random() < 0.6:
+            # 20-digit integers around the unsigned 64-bit limit, every last digit (the 20th-digit overflow test)
+            base = rng.choice([10 ** 19, 18446744073709551600, 18446744073709551610, 1844674407370955161 * 10, rng.randrange(10 ** 19, 2 ** 64 - 20) // 10 * 10])
+            return str(base + rng.randrange(0, 10) + rng.choice([0, 0, 0, 10]))
         return str(rng.choice([2 ** 64, 2 ** 64 + 1, 10 ** 19, 10 ** 20, 12345678901234567890123]))
     sign = "-" if rng.random() < 0.3 else ""
     ip = str(rng.randrange(0, 10 ** rng.randrange(1, 8)))
